@@ -84,4 +84,116 @@ theorem get_runAdds (adds : List (List Nat × Bool)) : ∀ (a j : Nat),
           rw [if_neg this]
         · rfl
 
+/-! ### a filter whose key has a lifetime -/
+
+theorem tallSet_eq (t : TState) (idxs : List Nat) :
+    tallSet t idxs = allSet ((t.view.map (·.a)).getD 0) idxs := by
+  simp only [tallSet, allSet, tstep, tget_snd]
+
+/-- `incr_bits` on whatever the key holds (stale entry or not): the key then logically holds the
+incremented array — of the live array, or of a fresh one — and inherits the live deadline -/
+theorem view_incrBits (w : Nat) (t : TState) (idxs : List Nat) (by_ : Int) :
+    (tstep w t (.incrBits idxs by_)).1.view =
+      some ⟨(incrBits ((t.view.map (·.a)).getD 0) idxs w by_).1, t.view.bind (·.dl)⟩ := by
+  simp only [tstep, tget_snd]
+  rw [tset_view _ (by rw [tget_slot, tget_view])]
+  simp [tget_view]
+
+/-- a step that leaves the key alive does not clear a bit -/
+theorem bit_kept (t : TState) (op : FOp) (sl sl' : Slot) (h : t.view = some sl)
+    (h' : (fstep t op).view = some sl') (j : Nat) (hj : get sl.a j 1 = 1) : get sl'.a j 1 = 1 := by
+  cases op with
+  | add idxs r =>
+    cases r with
+    | false =>
+      have e : fstep t (.add idxs false) = t := by simp [fstep]
+      rw [e, h] at h'; cases h'; exact hj
+    | true =>
+      have e : fstep t (.add idxs true) = (tstep 1 t (.incrBits idxs 1)).1 := by simp [fstep]
+      rw [e, view_incrBits, h] at h'
+      cases h'
+      show get (addBits sl.a idxs) j 1 = 1
+      rw [get_addBits]; split <;> simp [hj]
+  | query idxs =>
+    simp only [fstep, tstep] at h'
+    rw [tget_view, h] at h'; cases h'; exact hj
+  | expire ttl =>
+    simp only [fstep, tstep, tget_snd, h] at h'
+    rw [tset_view _ (by rw [tget_slot, tget_view])] at h'
+    cases h'; exact hj
+  | delete =>
+    simp only [fstep, tstep] at h'
+    cases hs : t.slot with
+    | none => simp [TState.view, hs] at h
+    | some s => simp [hs, TState.view] at h'
+  | touch =>
+    simp only [fstep, tstep] at h'
+    rw [tget_view, h] at h'; cases h'; exact hj
+  | adv dt =>
+    simp only [fstep, tstep] at h'
+    cases hs : t.slot with
+    | none => simp [TState.view, hs] at h
+    | some s =>
+      have hsl : s = sl := by
+        simp only [TState.view, hs] at h
+        split at h <;> simp_all
+      simp only [TState.view, hs] at h'
+      split at h'
+      · cases h'
+      · cases h'; subst hsl; exact hj
+
+theorem bits_kept_through (idxs : List Nat) (ops : List FOp) : ∀ (t : TState) (sl : Slot),
+    t.view = some sl → (∀ j ∈ idxs, get sl.a j 1 = 1) → aliveThrough t ops = true →
+    tallSet (frun t ops) idxs = true := by
+  induction ops with
+  | nil =>
+    intro t sl h hb _
+    rw [frun, tallSet_eq, allSet_iff, h]
+    intro i hi; simp [hb i hi]
+  | cons op rest ih =>
+    intro t sl h hb ha
+    simp only [aliveThrough, Bool.and_eq_true] at ha
+    obtain ⟨sl', hsl'⟩ := Option.isSome_iff_exists.1 ha.1
+    exact ih (fstep t op) sl' hsl' (fun j hj => bit_kept t op sl sl' h hsl' j (hb j hj)) ha.2
+
+/-! ### `dual_bloom`: the true filter only grows; an element recorded there is never answered False by the filters -/
+
+theorem allSet_addBits_mono (a : Nat) (idxs q : List Nat) (h : allSet a q = true) :
+    allSet (addBits a idxs) q = true := by
+  rw [allSet_iff] at h ⊢
+  intro i hi
+  rw [get_addBits]
+  split
+  · decide
+  · exact h i hi
+
+theorem dualCall_t_mono (s : Dual) (it if_ : List Nat) (nc u : Bool) (q : List Nat)
+    (h : allSet s.t q = true) : allSet (dualCall s it if_ nc u).1.t q = true := by
+  unfold dualCall
+  split
+  · simp only
+    split
+    · exact allSet_addBits_mono _ _ _ h
+    · exact h
+  · split
+    · exact h
+    · split <;> exact h
+
+theorem dualRun_t_mono (nc : Bool) (calls : List (List Nat × List Nat × Bool)) : ∀ (s : Dual) (q : List Nat),
+    allSet s.t q = true → allSet (dualRun nc s calls).t q = true := by
+  induction calls with
+  | nil => intro s q h; exact h
+  | cons c rest ih =>
+    intro s q h
+    obtain ⟨it, if_, u⟩ := c
+    exact ih _ q (dualCall_t_mono s it if_ nc u q h)
+
+theorem dualCall_recorded (s : Dual) (it if_ : List Nat) (nc u : Bool) (h : allSet s.t it = true) :
+    (dualCall s it if_ nc u).2.1 = true ∨ (dualCall s it if_ nc u).2.1 = u := by
+  unfold dualCall
+  simp only [notSet, h, Bool.not_true, Bool.false_and, Bool.false_eq_true, if_false]
+  split
+  · left; rfl
+  · right; rfl
+
 end CashewsVerif.Bloom
